@@ -59,11 +59,27 @@ def batches(tier):
     return out
 
 
+def fold_twin_batches():
+    """two batches whose record timestamps are ==, hash-equal, and one hour apart (DST fold)"""
+    from kio.records.schema import NewRecordBatch, Record
+    try:
+        import zoneinfo
+        z = zoneinfo.ZoneInfo("Europe/Berlin")
+    except Exception:        # noqa: BLE001
+        return []
+    a = datetime.datetime(2021, 10, 31, 2, 30, tzinfo=z, fold=0)
+    out = []
+    for t in (a, a.replace(fold=1), a):
+        out.append(NewRecordBatch(producer_id=1, producer_epoch=0, partition_leader_epoch=0, base_sequence=0, attributes=0,
+                                  records=(Record(attributes=0, timestamp=t, offset=5, key=b"k", value=b"v", headers=()),)))
+    return out
+
+
 def check_writer(tier):
     """write_new_batch / write_batch against the reference encoder and the independent decoder"""
     from kio.records.writers import write_batch, write_new_batch
     fails, n = [], 0
-    for b in batches(tier):
+    for b in batches(tier) + fold_twin_batches():
         n += 1
         buf = io.BytesIO()
         k, r = outcome(lambda: write_new_batch(buf, b))
@@ -183,6 +199,7 @@ def check_corruption(tier):
             k, r = outcome(lambda: read_batch(io.BytesIO(bytes(bad))))
             if not (k == "raise" and r == "ValueError") and len(fails) < 6:
                 fails.append({"key": "wrong-magic-rejected", "input": f"magic={magic}", "expected": "ValueError", "observed": str(r)})
+        outcome(lambda: read_batch(io.BytesIO(data)))      # history: the complete batch was read just before
         for cut in range(len(data)):
             n += 1
             k, r = outcome(lambda: read_batch(io.BytesIO(data[:cut])))
